@@ -35,7 +35,7 @@ from vf.ref import rxnfa
 
 MODS = [sansldap._filter, S, sansldap._session, sansldap._messages, sansldap.asn1, sansldap._controls, sansldap._authentication]
 KS = (8, 16, 32, 64)
-SLACK = 3000
+SLACK = 60000  # one-off step when a pumped structure first becomes complete (parsing <= ~130 bytes); exponential families exceed it by k = 32
 BUDGET = 4_000_000
 WALL_S = 4.0
 
